@@ -470,7 +470,7 @@ NLW2_SOLReadResultCode SOLReader2<SOLHandler>::bsufread(FILE* f) {
       return NLW2_SOLRead_Bad_Suffix;
     if (fread(&SR.h, sizeof(SufHead), 1, f) != 1)
       return ReportEarlyEof();
-    SR.tablines = SR.h.tablen - 1;
+    SR.tablines = SR.h.tablen > 0 ? SR.h.tablen - 1 : -1;  // no overflow
     if (strncmp(SR.h.sufid, "\nSuffix\n", 8)
         || sufheadcheck(&SR))
       return NLW2_SOLRead_Bad_Suffix;
